@@ -27,6 +27,9 @@ RULE = ("scripted steppers walking through prescribed state / observable sequenc
         "representable, so the rational model sees the same numbers; the unchanged code removes the rounded mean first, which "
         "shifts every entry of a column by the same delta <= 2^(k-53) and therefore perturbs the result only in second order "
         "(T*delta^2/sum y^2 < 1e-16 for k <= 20; measured worst deviation from the model 1.4e-15), far below the 1e-9 tolerance. "
+        "Scale invariance with tiny values: the same cases with a mix of columns multiplied by 2^-60 or 2^-100 (non-constant, "
+        "norm far below f64::EPSILON; exact power-of-two scaling, exact rationals in the model), through the same entry points "
+        "and a quarter of the temper cases; the oracle rescales by a power of two before its direct evaluation. "
         "Non-trivial = all columns non-constant (oracle applies); distinct = distinct input line.")
 
 
